@@ -130,7 +130,7 @@ fn one(seed: u64, i: usize, cell: &Cell, inst: u64) -> Value {
                 }
                 ("replace", "parent") => {
                     p.parent = loop {
-                        let n = ops::random_bytes(&mut rng, 32);
+                        let n = ops::random_alpha(&mut rng, 32);
                         if n != o_parent {
                             break n;
                         }
@@ -140,7 +140,7 @@ fn one(seed: u64, i: usize, cell: &Cell, inst: u64) -> Value {
                     if *b == 1 {
                         let l = p.data.len().max(1);
                         p.data = loop {
-                            let n = ops::random_bytes(&mut rng, l);
+                            let n = ops::random_alpha(&mut rng, l);
                             if n != o_data {
                                 break n;
                             }
